@@ -2,7 +2,7 @@
 # Regression over /verif/seeded: applies each seeded change to /repo, runs the quick checks that are recorded
 # as catching it, undoes the change. Prints one line per seed. (Do not run other checks at the same time.)
 cd /verif
-for d in seeded/*/; do
+for d in ${SEEDS:-seeded/*/}; do
   id=$(basename $d)
   checks=$(python3 -c "import json; print(' '.join(json.load(open('$d/meta.json'))['caught_by']))")
   res=""
